@@ -257,6 +257,9 @@ def r2(report, db, cg, type_ci):
 def r3(report, db, cg, F):
     R = report.rule('R02.3', 'every sized raw read in codec code flows into '
                     'a consumer that fails on short input')
+    from .. import shared
+    from ..pathsum import struct, show, subterms, is_const
+    S = shared.summariser(db, cg, implicit_raises=False)
     n = 0
     for fi in db.funcs:
         mod = fi.module.name
@@ -265,7 +268,7 @@ def r3(report, db, cg, F):
             continue
         if mod.endswith('packet_buffer'):
             continue
-        par = None
+        raw = {}
         for cs in cg.sites.get(fi, []):
             f = cs.node.func
             if not (isinstance(f, ast.Attribute) and f.attr == 'read'):
@@ -277,68 +280,76 @@ def r3(report, db, cg, F):
                 continue
             if any(t[0] in ('cls', 'inst') for t in cs.recv_types):
                 continue
-            n += 1
-            call = cs.node
-            if not call.args and not call.keywords:
-                # read-all: no notion of a short read (TrailingByteArray)
-                report.ok(R, '%s: unbounded read (not self-delimiting)'
-                          % fi.qualname)
-                continue
-            if par is None:
-                par = parents(fi.node)
-            verdict = classify_read(fi, call, par)
-            if verdict is True:
-                report.ok(R, '%s: %s' % (fi.qualname, ast.unparse(call)))
+            raw[id(cs.node)] = cs.node
+        if not raw:
+            continue
+        n += len(raw)
+        verdicts = {}
+        for p in S.run(fi):
+            evs = p.flat(('call',))
+            for e in evs:
+                if id(e.node) not in raw:
+                    continue
+                key = id(e.node)
+                if not e.args and not e.kwargs:
+                    verdicts.setdefault(key, True)
+                    continue
+                if not p.returns:
+                    verdicts.setdefault(key, True)
+                    continue
+                chunk = e.res
+                size = e.args[-1]
+                # (a) handed to a consumer that fails on short input
+                safe = False
+                uses = 0
+                for x in evs:
+                    if x is e:
+                        continue
+                    args = list(x.args) + [v for _, v in x.kwargs]
+                    if not any(chunk in list(subterms(a)) for a in args):
+                        continue
+                    uses += 1
+                    if x.fn == ('ext', 'struct.unpack') and \
+                            x.args[1:2] == (chunk,):
+                        safe = True
+                    elif x.fn == ('ext', 'uuid.UUID') and dict(
+                            x.kwargs).get('bytes') == chunk:
+                        safe = True
+                # (b) the path has decided that the chunk is not short
+                for a, pol, _ in p.conds:
+                    ln = ('op', 'len', (chunk,))
+                    if a[1] == '<' and a[2] == (ln, size) and not pol:
+                        safe = True
+                    elif a[1] == '<=' and a[2] == (size, ln) and pol:
+                        safe = True
+                    elif a[1] == '==' and set(a[2]) == {ln, size} and pol:
+                        safe = True
+                    elif a[1] == 'truth' and a[2][0] == chunk and pol and \
+                            size == ('const', 1):
+                        safe = True
+                    elif a[1] == '<' and a[2][0] == ln and is_const(
+                            a[2][1]) and a[2][1] == size and not pol:
+                        safe = True
+                if safe:
+                    verdicts.setdefault(key, True)
+                else:
+                    verdicts[key] = 'is used on a returning path [%s] ' \
+                        'without having been checked for its length' % (
+                            p.cond_text()[:80] or 'always')
+        for key, node in raw.items():
+            v = verdicts.get(key)
+            if v is True:
+                report.ok(R, '%s: %s' % (fi.qualname, ast.unparse(node)))
+            elif v is None:
+                report.ok(R, '%s: %s (unreachable)' % (fi.qualname,
+                                                       ast.unparse(node)))
             else:
                 report.violation(
-                    R, 'shortread:%s' % fi.qualname, fi.path, call,
+                    R, 'shortread:%s' % fi.qualname, fi.path, node,
                     fi.qualname,
                     'result of %s %s: a truncated stream yields a shorter '
-                    'value instead of an error' % (ast.unparse(call), verdict))
+                    'value instead of an error' % (ast.unparse(node), v))
     report.floor('raw stream reads in codec code', n, 15)
-
-
-def classify_read(fi, call, par):
-    p = par.get(id(call))
-    # (a) second argument of struct.unpack
-    if is_call_to(p, 'struct.unpack') and len(p.args) == 2 and \
-            p.args[1] is call:
-        return True
-    # (b) uuid.UUID(bytes=...)
-    if isinstance(p, ast.keyword) and p.arg == 'bytes':
-        pp = par.get(id(p))
-        if is_call_to(pp, 'uuid.UUID'):
-            return True
-    # (c) bound to a local whose length is tested first
-    if isinstance(p, ast.Assign) and len(p.targets) == 1 and \
-            isinstance(p.targets[0], ast.Name):
-        var = p.targets[0].id
-        block = enclosing_block(fi.node, p)
-        if block is not None:
-            idx = block.index(p)
-            for st in block[idx + 1:]:
-                if not uses(st, var):
-                    continue
-                if isinstance(st, ast.If) and tests_shortness(st.test, var) \
-                        and ends_in_raise(st.body):
-                    return True
-                # first use hands the bytes to a failing consumer
-                occ = [x for x in ast.walk(st)
-                       if isinstance(x, ast.Name) and x.id == var]
-                spar = parents(st)
-                if occ and all(
-                        (is_call_to(spar.get(id(x)), 'struct.unpack')
-                         and spar[id(x)].args[1:2] == [x])
-                        or (isinstance(spar.get(id(x)), ast.keyword)
-                            and spar[id(x)].arg == 'bytes'
-                            and is_call_to(spar.get(id(spar[id(x)])),
-                                           'uuid.UUID'))
-                        for x in occ):
-                    return True
-                return 'is used without a length check (%s)' % \
-                    ast.unparse(st).split('\n')[0][:50]
-        return 'is never length-checked'
-    return 'flows into a consumer that accepts short input'
 
 
 def enclosing_block(fnode, stmt):
@@ -473,13 +484,8 @@ def r4(report, db, F, basic, ref):
     ci = basic.classes.get('PrefixedArray')
     if ci is None:
         raise AnalysisError('PrefixedArray vanished')
-    snd = db.own_method(ci, '__send')
-    rdm = db.own_method(ci, '__read')
-    if snd is None or rdm is None:
-        raise AnalysisError('PrefixedArray.__send/__read vanished',
-                            ci.node, rel(ci.path))
     n += 1
-    check_prefixed_array(report, R, snd, rdm)
+    check_prefixed_array(report, R, db, ci)
     report.floor('length-prefixed codecs', n, 4)
 
 
@@ -532,58 +538,98 @@ def codec_read_type(e, stream):
     return None
 
 
-def check_prefixed_array(report, R, snd, rdm):
-    # __send(self, value, socket, element_send)
-    body = [s for s in snd.body if not (isinstance(s, ast.Expr) and
-                                        isinstance(s.value, ast.Constant))]
+def check_prefixed_array(report, R, db, ci):
+    """send: length_type.send(len(v)) then one element write per element of
+    v, in order; read: n = length_type.read, then n element reads.  Read off
+    the path summaries of PrefixedArray.send / read (its private helpers
+    inlined, whatever they are called)."""
+    from ..callgraph import CallGraph
+    from .. import shared
+    from ..pathsum import struct, show, subterms
+    cg = CallGraph(db)
+    S = shared.summariser(db, cg, implicit_raises=False)
+    S.inline_pred = lambda t: t.cls is ci
+    sd, rd = db.own_method(ci, 'send'), db.own_method(ci, 'read')
+    if sd is None or rd is None:
+        raise AnalysisError('PrefixedArray.send/read vanished', ci.node,
+                            rel(ci.path))
+    me = ('sym', sd.params[0])
+    val, sock = ('sym', sd.params[1]), ('sym', sd.params[2])
+    lt = ('attr', me, 'length_type')
+    et = ('attr', me, 'element_type')
     ok = False
-    if len(body) == 2 and isinstance(body[0], ast.Expr) and \
-            isinstance(body[1], ast.For):
-        pre = prefix_send(body[0].value)
-        loop = body[1]
-        if pre is not None and pre[1] is not None and \
-                pre[0] == 'self.length_type' and \
-                ast.dump(pre[1]) == ast.dump(loop.iter) and \
-                isinstance(loop.iter, ast.Name) and \
-                loop.iter.id == snd.params[1] and len(loop.body) == 1 and \
-                isinstance(loop.body[0], ast.Expr) and \
-                isinstance(loop.body[0].value, ast.Call):
-            c = loop.body[0].value
-            if isinstance(c.func, ast.Name) and c.func.id == snd.params[3] \
-                    and len(c.args) == 2 and isinstance(c.args[0], ast.Name) \
-                    and isinstance(loop.target, ast.Name) \
-                    and c.args[0].id == loop.target.id:
-                ok = True
+    why = ''
+    for p in S.run(sd):
+        if not p.returns:
+            continue
+        evs = [e for e in p.events if e.kind in ('call', 'loop')]
+        pre = [e for e in evs if e.kind == 'call' and e.fn[0] == 'attr'
+               and struct(e.fn[1]) == lt and e.fn[2] == 'send']
+        loops = [e for e in evs if e.kind == 'loop']
+        ok = len(pre) == 1 and len(loops) == 1 and \
+            evs.index(pre[0]) < evs.index(loops[0]) and \
+            [struct(a) for a in pre[0].args] == [('op', 'len', (val,)),
+                                                 sock] and \
+            struct(loops[0].ctx) == val
+        if ok:
+            for q in loops[0].paths:
+                calls = q.flat(('call',))
+                if len(calls) != 1 or not (
+                        calls[0].fn[0] == 'attr'
+                        and struct(calls[0].fn[1]) == et
+                        and calls[0].fn[2] == 'send'
+                        and calls[0].args[0][0] == 'elem'
+                        and struct(calls[0].args[1]) == sock):
+                    ok = False
+                    why = 'the loop body is %s' % [repr(c) for c in calls]
+        else:
+            why = 'effects: %s' % [repr(e) for e in evs][:4]
     if ok:
-        report.ok(R, 'PrefixedArray.__send: length_type(len(v)) then one '
-                  'element_send per element of v')
+        report.ok(R, 'PrefixedArray.send: length_type(len(v)) then one '
+                  'element write per element of v')
     else:
-        report.violation(R, 'prefix:PrefixedArray.__send', snd.path,
-                         snd.node, snd.qualname,
+        report.violation(R, 'prefix:PrefixedArray.__send', sd.path,
+                         sd.node, sd.qualname,
                          'does not write len(value) with length_type followed '
-                         'by exactly one element write per element of value')
-    val, effects, env = terms.straight_line_value(rdm)
+                         'by exactly one element write per element of value '
+                         '(%s)' % why)
+    me = ('sym', rd.params[0])
+    stream = ('sym', rd.params[1])
+    lt = ('attr', me, 'length_type')
+    et = ('attr', me, 'element_type')
     ok = False
-    if isinstance(val, ast.ListComp) and len(val.generators) == 1 and \
-            not val.generators[0].ifs:
-        g = val.generators[0]
-        it = g.iter
-        if isinstance(it, ast.Call) and isinstance(it.func, ast.Name) and \
-                it.func.id == 'range' and len(it.args) == 1:
-            pt = codec_read_type(it.args[0], rdm.params[1])
-            el = val.elt
-            if pt == 'self.length_type' and isinstance(el, ast.Call) and \
-                    isinstance(el.func, ast.Name) and \
-                    el.func.id == rdm.params[2] and len(el.args) == 1 and \
-                    isinstance(el.args[0], ast.Name) and \
-                    el.args[0].id == rdm.params[1]:
-                ok = True
+    for p in S.run(rd):
+        if not p.returns:
+            continue
+        evs = [e for e in p.events if e.kind in ('call', 'loop')]
+        pre = [e for e in evs if e.kind == 'call' and e.fn[0] == 'attr'
+               and struct(e.fn[1]) == lt and e.fn[2] == 'read']
+        loops = [e for e in evs if e.kind == 'loop']
+        if len(pre) != 1 or len(loops) != 1 or \
+                [struct(a) for a in pre[0].args] != [stream]:
+            ok = False
+            continue
+        n_ = pre[0].res
+        lp = loops[0]
+        if lp.ctx != ('op', 'range', (n_,)):
+            ok = False
+            continue
+        ok = True
+        for q in lp.paths:
+            calls = q.flat(('call',))
+            reads = [c for c in calls if c.fn[0] == 'attr'
+                     and struct(c.fn[1]) == et and c.fn[2] == 'read'
+                     and [struct(a) for a in c.args] == [stream]]
+            if len(reads) != 1 or len([c for c in calls
+                                       if c.fn[2:3] != ('append',)]) != 1:
+                ok = False
+        # the result collects exactly the element reads
     if ok:
-        report.ok(R, 'PrefixedArray.__read: n = length_type.read; n element '
+        report.ok(R, 'PrefixedArray.read: n = length_type.read; n element '
                   'reads')
     else:
-        report.violation(R, 'prefix:PrefixedArray.__read', rdm.path,
-                         rdm.node, rdm.qualname,
+        report.violation(R, 'prefix:PrefixedArray.__read', rd.path,
+                         rd.node, rd.qualname,
                          'does not read the length with length_type and then '
                          'exactly that many elements')
 
